@@ -226,6 +226,103 @@ def build(tier):
         P.contract(qual, variant="target", region=region(prefix, prefix), params=params, requires=[], frame_fields=False,
                    ensures=[f"bellman({var})"], replay="c08:bellman")
 
+    # ------------------------------------------------------------------ (2b) where the centralised critics' inputs come from
+    # MADDPG.learn / MATD3.learn up to the stacking: whatever the key order of the sampled dicts, the critics see the sampled actions
+    # concatenated in the order of agent_ids (the order in which stack_critic_observations stacks the observations and in which the
+    # next actions are produced), and the next actions are those of each agent's TARGET actor on ITS OWN prepared next observation.
+    class Tok:
+        def __init__(self, name):
+            self.name = name
+
+        def __eq__(self, other):
+            return isinstance(other, Tok) and other.name == self.name
+
+        def __hash__(self):
+            return hash(("Tok", self.name))
+
+        def __repr__(self):
+            return f"<{self.name}>"
+
+        def getattr(self, ex, st, name):
+            if name == "to":
+                return Fn(model=lambda ex, st, a, k: self, name="to")            # device moves keep values
+            raise Undecided(f"tensor attribute {name}")
+    IDS = ["agent_0", "agent_1", "other_0"]
+    P.lib["torch.cat"] = lambda ex, st, a, k: ("cat", list(a[0]), k.get("dim", a[1] if len(a) > 1 else 0))
+    for cls, mod in (("MADDPG", "maddpg"), ("MATD3", "matd3")):
+        for tag, order in (("given-order", IDS), ("reversed", IDS[::-1]), ("rotated", IDS[1:] + IDS[:1])):
+            def ma_learner(ex, st, label, cls=cls):
+                o = Obj("model." + cls, label="self")
+                o.fields.update(dict(
+                    agent_ids=list(IDS), device="cpu",
+                    preprocess_observation=Fn(model=lambda ex, st, a, k: {x: ("prepared", v) for x, v in a[0].items()}, name="preprocess_observation"),
+                    stack_critic_observations=Fn(model=lambda ex, st, a, k: ("stacked-by-agent_ids", dict(a[0])), name="stack_critic_observations"),
+                    actor_targets=[Fn(model=lambda ex, st, a, k, i=i: ("target-actor", i, a[0]), name=f"actor_target_{i}") for i in range(len(IDS))],
+                    actors=[Fn(model=lambda ex, st, a, k, i=i: ("online-actor", i, a[0]), name=f"actor_{i}") for i in range(len(IDS))]))
+                return o
+
+            def batch(ex, st, label, order=order):
+                mk = lambda what, keys: {a: Tok(f"{what}-of-{a}") for a in keys}
+                return (mk("obs", IDS), mk("action", order), mk("reward", order[::-1]), mk("next_obs", order), mk("done", order[::-1]))
+
+            def critic_inputs(stacked_states, stacked_next_states, stacked_actions, stacked_next_actions, rewards, dones):
+                prep = lambda what: {a: ("prepared", Tok(f"{what}-of-{a}")) for a in IDS}
+                ok = (stacked_actions == ("cat", [Tok(f"action-of-{a}") for a in IDS], 1)
+                      and stacked_next_actions == ("cat", [("target-actor", i, ("prepared", Tok(f"next_obs-of-{a}"))) for i, a in enumerate(IDS)], 1)
+                      and stacked_states == ("stacked-by-agent_ids", prep("obs")) and stacked_next_states == ("stacked-by-agent_ids", prep("next_obs"))
+                      and isinstance(rewards, dict) and all(rewards.get(a) == Tok(f"reward-of-{a}") for a in IDS)
+                      and isinstance(dones, dict) and all(dones.get(a) == Tok(f"done-of-{a}") for a in IDS))
+                return z3.BoolVal(bool(ok))
+            P.specns["critic_inputs"] = critic_inputs
+            P.contract(f"agilerl.algorithms.{mod}.{cls}.learn", variant="critic-inputs-" + tag,
+                       region=region("states, actions, rewards, next_states, dones = experiences", "stacked_next_actions = torch.cat"),
+                       params={"self": ma_learner, "experiences": batch}, requires=[], frame_fields=False,
+                       ensures=["critic_inputs(stacked_states, stacked_next_states, stacked_actions, stacked_next_actions, rewards, dones)"],
+                       replay={"adapter": "demos:run", "payload": {"name": "C08b_demo_6"}})
+
+    # the bootstrap value itself: the TARGET critic(s) of the agent on the stacked NEXT observations and NEXT (target-actor) actions,
+    # the smaller of the twin target critics for MATD3 - with and without an accelerator
+    class Ctx:
+        def enter(self, ex, st):
+            return None
+
+    class Net:
+        def __init__(self, name):
+            self.name = name
+
+        def call(self, ex, st, args, kwargs):
+            return ("value", self.name, tuple(args))
+
+        def getattr(self, ex, st, name):
+            if name == "no_sync":
+                return Fn(model=lambda ex, st, a, k: Ctx(), name="no_sync")
+            raise Undecided(f"network attribute {name}")
+    P.lib["torch.min"] = lambda ex, st, a, k: ("min", frozenset(a))
+    SNS, SNA = Tok("stacked_next_states"), Tok("stacked_next_actions")
+    nets = lambda *names: {n: (lambda ex, st, l, n=n: Net(n)) for n in names}
+    P.specns.update(dict(boot_single=lambda v: z3.BoolVal(v == ("value", "critic_target", (SNS, SNA))),
+                         boot_twin=lambda v: z3.BoolVal(v == ("min", frozenset([("value", "critic_target_1", (SNS, SNA)), ("value", "critic_target_2", (SNS, SNA))])))))
+    for acc_tag, acc in (("plain", None), ("accelerated", Opaque("accelerator"))):
+        common = {"agent_id": (lambda ex, st, l: "agent_x"), "rewards": "opaque", "dones": "opaque", "stacked_next_states": (lambda ex, st, l: SNS), "stacked_next_actions": (lambda ex, st, l: SNA),
+                  "stacked_states": (lambda ex, st, l: Tok("stacked_states")), "stacked_actions": (lambda ex, st, l: Tok("stacked_actions"))}
+
+        def acc_self(cls, acc=acc):
+            def mk(ex, st, label):
+                o = Obj("model." + cls, label="self")
+                o.fields.update(dict(accelerator=acc, gamma=gamma))
+                return o
+            return mk
+        P.contract("agilerl.algorithms.maddpg.MADDPG._learn_individual", variant="bootstrap-" + acc_tag,
+                   region=region("with torch.no_grad()", "with torch.no_grad()"),
+                   params=dict(common, self=acc_self("MADDPG"), **nets("critic", "critic_target"), **{p: "opaque" for p in ma_opaque if p not in ("critic", "critic_target") and p not in common}),
+                   requires=[], frame_fields=False, ensures=["boot_single(q_value_next_state)"], replay="c08:bellman")
+        P.contract("agilerl.algorithms.matd3.MATD3.learn_individual", variant="bootstrap-" + acc_tag,
+                   region=region("with torch.no_grad()", "q_value_next_state = torch.min"),
+                   params=dict(common, self=acc_self("MATD3"), **nets("critic_1", "critic_2", "critic_target_1", "critic_target_2"),
+                               **{p: "opaque" for p in ma_opaque + ["critic_1_optimizer", "critic_2_optimizer"]
+                                  if p not in ("critic", "critic_target") and p not in common}),
+                   requires=[], frame_fields=False, ensures=["boot_twin(q_value_next_state)"], replay="c08:bellman")
+
     # ------------------------------------------------------------------ (3) wiring (AST of the real functions)
     def src(qual):
         from pyvc import front
@@ -264,6 +361,6 @@ def build(tier):
     P.syntactic.append(("learners.target-sources-and-updates", wiring))
     P.assumptions += ["A-REAL; done flags are 0/1", "Q_target is an arbitrary real (network outputs are free)",
                       "that the minimised quantity is the stated loss needs autograd semantics (trusted, DESIGN 6)"]
-    P.uncovered += ["where MADDPG/MATD3 take Q_target from (their target statements and soft_update loops are under contract, the source of q_value_next_state is not)",
+    P.uncovered += ["that the centralised critics of MADDPG/MATD3 consume their two inputs in the stacked order (nn forward); agent_ids absent from a sampled batch",
                     "the loss value minimised by backward()/step() (autograd)", "float effects (0*inf)"]
     return P
